@@ -20,8 +20,12 @@ Clauses(e) ==
          \* the relation is evaluated once per distinct bit pattern
          goodBits == {w \in {words(e.r[i]) : i \in 1..Len(e.r)} \cup {SubSeq(e.std, 3, 6)} : ~ov /\ Rounded(lit, w)}
      IN UNION { LET r == e.r[i] IN
-                F(IF ov THEN r[2] = 0 ELSE (r[2] = 1 /\ r[3] = en - 1 /\ words(r) \in goodBits),
-                  "C04", CASE r[1] = 1 -> "ReadFloat64" [] r[1] = 2 -> "DecodeFloat64" [] OTHER -> "ReadValue")
+                \* rows 4..7: the literal as a leaf of a document (array element, object member) through ReadValue and
+                \* through a reused reader's ReadArray / ReadObject; their offset is that of the whole document
+                F(IF ov THEN r[2] = 0 ELSE (r[2] = 1 /\ (r[1] <= 3 => r[3] = en - 1) /\ words(r) \in goodBits),
+                  "C04", CASE r[1] = 1 -> "ReadFloat64" [] r[1] = 2 -> "DecodeFloat64" [] r[1] = 3 -> "ReadValue"
+                           [] r[1] = 4 -> "ReadValue_array_element" [] r[1] = 5 -> "ReadValue_object_member"
+                           [] r[1] = 6 -> "reused_reader_ReadArray_element" [] OTHER -> "reused_reader_ReadObject_member")
                 : i \in 1..Len(e.r) }
         \* strconv is wrong beyond 800 integer digits (DESIGN section 7): excluded from the cross-check
         \cup F(lit.nint > 800 \/ (IF ov THEN e.std[1] = 2 ELSE (e.std[1] = 1 /\ SubSeq(e.std, 3, 6) \in goodBits)),
